@@ -198,3 +198,22 @@ Qed.
 Theorem trace_spans_bytes : forall ss,
   parse_bytes (render (enc_trace (map jspan_val ss))) = Some (doc_trace_of (map sanitize_doc (map jspan_val ss))).
 Proof. intros ss. apply trace_marshalled_bytes, forallb_map_true, nums_ok_jspan. Qed.
+
+(* a whole response written by ONE json.Marshal (TagsV2, ValuesV2): the value itself *)
+Theorem marshal_value_bytes : forall v, nums_ok v = true -> parse_bytes (render (tokensJ_of v)) = Some (sanitize_doc v).
+Proof.
+  intros v Hn. apply parse_bytes_of_prep; [|apply prep_tokensJ].
+  rewrite <- (app_nil_r (tokensJ_of v)). apply (lexable_tokensJ v Hn); reflexivity.
+Qed.
+Lemma nums_ok_tagsv2 : forall xs, nums_ok (tagsv2_val xs) = true.
+Proof.
+  intros xs. cbn [tagsv2_val nums_ok forallb snd]. rewrite (nums_ok_jslice _ JStr); [reflexivity|reflexivity].
+Qed.
+Lemma nums_ok_valuesv2 : forall xs, nums_ok (valuesv2_val xs) = true.
+Proof.
+  intros xs. cbn [valuesv2_val nums_ok forallb snd]. rewrite nums_ok_jslice; [reflexivity|reflexivity].
+Qed.
+Theorem tagsv2_bytes : forall xs, parse_bytes (render (tokensJ_of (tagsv2_val xs))) = Some (sanitize_doc (tagsv2_val xs)).
+Proof. intros xs. apply marshal_value_bytes, nums_ok_tagsv2. Qed.
+Theorem valuesv2_bytes : forall xs, parse_bytes (render (tokensJ_of (valuesv2_val xs))) = Some (sanitize_doc (valuesv2_val xs)).
+Proof. intros xs. apply marshal_value_bytes, nums_ok_valuesv2. Qed.
